@@ -85,7 +85,7 @@ fn main() {
     let max_len = ctx.pick(3usize, 6usize);
     let instances = 3usize;
     ctx.set_rule(
-        "cases = (registry entry, fitted instance 0..2 with different data seeds / feature counts / hyper-parameters); registry = 33 entries (28 + 5 exact-decision-boundary instances: linear C-SVC on point-symmetric integer data with pool rows on the hyperplane, one-class SVM with rho set to a pool row's decision value, logistic regression with the threshold set to a pool row's probability, k-means with pool rows equidistant from two centroids, decision tree with pool rows exactly on split values; exactness is checked at run time and counted as rows_exactly_on_decision_boundary) covering every predictor type of the workspace (k-means, GMM, OLS, isotonic, Tweedie, \
+        "cases = (registry entry, fitted instance 0..2 with different data seeds / feature counts / hyper-parameters); registry = 35 entries (28 + single-member MultiTargetModel + one- / two-member MultiClassModel + 5 exact-decision-boundary instances: linear C-SVC on point-symmetric integer data with pool rows on the hyperplane, one-class SVM with rho set to a pool row's decision value, logistic regression with the threshold set to a pool row's probability, k-means with pool rows equidistant from two centroids, decision tree with pool rows exactly on split values; exactness is checked at run time and counted as rows_exactly_on_decision_boundary) covering every predictor type of the workspace (k-means, GMM, OLS, isotonic, Tweedie, \
          elastic net, multi-task elastic net, PLS regression / canonical / CCA, logistic binary / multinomial, SVM C-bool gaussian, C-bool linear / polynomial, probability, regression \
          linear / gaussian, one-class, decision tree, Gaussian NB, multinomial NB, FTRL, PCA, FastICA, MultiTargetModel, MultiClassModel, Platt over a linear scorer and over an SVM); \
          per case: query pool of 6 rows (2 training rows, a duplicate of the first, an off-data midpoint, an extreme row, a third training row) x EVERY ordered selection \
@@ -99,6 +99,7 @@ fn main() {
     ctx.assume("oracle = the same fitted model applied to each pool row alone as a 1 x p standard-layout Array2 through predict(&Array2); output row i of every batch must equal the single-row output of the selected pool row");
     ctx.assume("labels (usize / bool / String) are compared exactly; for labels that are an arg-max / threshold of floats (k-means, logistic, SVM classifiers) a mismatch on a row whose decision gap is <= 2(p+2) eps S is counted indeterminate (none expected)");
     ctx.assume("floats: |batch - single| <= 2(p+2) * eps * S(row), the worst-case difference between two summation orders of the same p products (what ndarray's 8-way unrolled dot vs the strided sequential dot can introduce); S = sum of the magnitudes of the operands of the model's inner product for that row (per-model closure in registry.rs), eps = 2^-52, or 2^-23 with S = 1 for Pr outputs evaluated in f32; the evidence reports how many float cells were bit-identical and the largest deviation in tolerance units");
+    ctx.assume("float cells whose operand magnitude S reaches the largest finite value of the model's float type (f32::MAX for f32 models) and where one of the two compared values is not finite are indeterminate: an intermediate sum may overflow (to inf, or to inf - inf = NaN across the lanes of the unrolled dot) in one summation order and not in another (seen: OLS / elastic net f32, p = 17 / 33, on the row of alternating +-f32::MAX/2)");
     ctx.assume("dataset / owned forms must hand back records with the same shape, strides and bit pattern (view form: the same buffer)");
     ctx.assume("documented panic: predict_inplace with a target of n+1 or n-1 rows must panic with the message documented in the assert ('The number of data points must match the number of output targets.' / '... memberships.' for k-means) and must not have written into the target");
     ctx.assume("MultiTargetModel: column j bit-identical to member j's own prediction of the same batch; MultiClassModel: returned label belongs to a member whose probability (computed by that member on the same batch) is maximal, any tied member accepted; Platt: output in [0,1], |output - 1/(1+exp(A f + B))| <= 1e-6 (implementation evaluates the sigmoid in f32; A, B read from the model's Debug form, f from the inner model on the same batch), non-strictly monotone in f over all ordered pairs of pool rows");
@@ -106,6 +107,9 @@ fn main() {
     ctx.assume("exact-boundary instances: labels compared exactly with no indeterminate margin; a pool row counts as on the boundary only if the harness recomputes its decision value / tie from the model's public parameters and finds exact equality (rho == 0 and weighted_sum == 0; probability == threshold; equal squared distances; feature == split value)");
     ctx.assume("large family (21 predictors, f64 and, where the type is generic, f32): one batch of n = 1025 (quick, thorough) and 4097 (thorough) distinct rows (training rows + constant-LCG offsets; p = 17 / 33 for the linear / logistic / FTRL / PCA members) in 5 layouts (standard, column-major owned, transposed view of a feature-major array, reversed-row view of a reversed copy, every second row of a larger array whose filler rows are NaN) through 10 forms (the pool-family forms plus predict_inplace on the view); oracle: every (layout, form) output == the standard-layout predict(&Array2) output (labels exact, floats within the same 2(p+2) eps S, eps = 2^-23 for f32 models), signature <kind>.layout_dependence, and rows {0, 1, 1023, 1024, n-1} (quick) / all rows (thorough) of the standard-layout output == the row predicted alone");
     ctx.assume("fit-layout family (closed-form / deterministic fits only: OLS f64+f32, Gaussian NB, multinomial NB, decision tree f64+f32, k-means with precomputed init on 1025 rows, PLS regression, PCA up to axis sign): the TRAINING records in the same 5 layouts as owned arrays and as views; the fitted model's predictions on a 6-row query (k-means: plus centroids) must equal those of the standard-layout fit: labels exactly, floats bit-identical or within 1e-9 * S (1e-4 * S for f32; DESIGN 3.6 tolerance for a value recomputed along a different arithmetic path), signature <kind>.fit.layout_dependence; a panic whose message documents a contiguity requirement is counted, not reported");
+    ctx.assume("extreme pools: every non-boundary entry runs a second time with the pool {training row 0, five rows of a 15-pattern catalogue of extreme-but-finite rows: +-1e3, +-1e6, +-1e30, f32::MAX/2, +-1e-30, zero, mixed magnitudes, one coordinate of a training row replaced}; same oracle (batch containing an extreme row == rows predicted alone, no panic) plus: Pr outputs in [0, 1]; the large family carries the 15 catalogue rows as rows 2..16 of every batch (f32 too)");
+    ctx.assume("in-place forms: into default_target; into a target that holds the answers of a DIFFERENT batch of the same length chosen so that every position holds an answer different from the wanted one where the pool allows; into a target pre-filled with poison (two fillings: NaN / -7.5e300, 987654321 / 0, true / false, Pr 1 / 0, \"<poison>\" / \"\")");
+    ctx.assume("smallest composites: MultiTargetModel with exactly one member (via new and via FromIterator), MultiClassModel with one and with two members; batches of 0, 1, 2, 3 rows; output shape checked as well as values");
     ctx.assume("training data and pools come from a constant LCG (no entropy source); VERIF_SEED does not influence anything explored");
 
     let reg = registry::registry();
